@@ -128,6 +128,9 @@ fn judge(ctx: &Ctx, t: &mut Tally, a: &Artifact, class: &str, part: &str, mutate
     }
     t.evals += 1;
     t.hashes.push(mix64(fnv64(a.kind.as_bytes()), fnv64(mutated)));
+    // the V1 loaders added by the coverage-driven extension: cutting the reply anywhere removes the
+    // (optional) checksum line, one cause whatever part the cut falls into -> one signature per loader
+    let part = if class == "truncate-artifact" && a.kind != "v1-mime" && a.kind.starts_with("v1-mime") { "checksum-line-cut-off" } else { part };
     match run_check(a, mutated) {
         Outcome::Rejected => t.add(a.kind, class, "rejected"),
         Outcome::AcceptedEqual if part.contains("stored") && (class == "bitflip" || class.starts_with("subst-")) => {
@@ -604,14 +607,27 @@ fn mime_artifact(instance: String, text: Vec<u8>) -> Result<Artifact, String> {
     let doc = parse_v1_mime_to_bpsv(&text).map_err(|e| format!("{instance}: {e}"))?;
     let want = bpsv_logical(&doc);
     // parts: MIME framing before the body, the BPSV body, framing after the body
-    let body_start = text.windows(4).rposition(|w| w == b"\r\n\r\n").map_or(0, |p| p + 4).min(pos);
-    let body_start = if body_start >= pos { text.windows(4).position(|w| w == b"\r\n\r\n").map_or(0, |p| p + 4) } else { body_start };
-    let closing = text[..pos].windows(4).rposition(|w| w == b"\r\n--").unwrap_or(pos);
+    // a second MIME part with the signature (coverage-driven extension) follows the data part:
+    // the data part is looked for before it
+    const SIG: &[u8] = b"Content-Disposition: signature";
+    let sig_part = text[..pos].windows(SIG.len()).position(|w| w == SIG).and_then(|p| text[..p].windows(4).rposition(|w| w == b"\r\n--"));
+    let data_end = sig_part.unwrap_or(pos);
+    let body_start = text[..data_end].windows(4).rposition(|w| w == b"\r\n\r\n").map_or(0, |p| p + 4).min(data_end);
+    let body_start = if body_start >= data_end { text.windows(4).position(|w| w == b"\r\n\r\n").map_or(0, |p| p + 4) } else { body_start };
+    let closing = if sig_part.is_some() { data_end } else { text[..pos].windows(4).rposition(|w| w == b"\r\n--").unwrap_or(pos) };
     let mut parts: Vec<(&'static str, Range<usize>)> = Vec::new();
     if body_start > 0 && body_start < closing {
         parts.push(("mime-headers", 0..body_start));
         parts.push(("bpsv-body", body_start..closing));
-        if closing < pos {
+        if let Some(sp) = sig_part {
+            let last = text[..pos].windows(4).rposition(|w| w == b"\r\n--").unwrap_or(pos).max(sp);
+            if sp < last {
+                parts.push(("signature-part", sp..last));
+            }
+            if last < pos {
+                parts.push(("closing-boundary", last..pos));
+            }
+        } else if closing < pos {
             parts.push(("closing-boundary", closing..pos));
         }
     } else {
@@ -701,6 +717,841 @@ fn handmade_mime(rng: &mut Rng) -> Vec<u8> {
     );
     let sum = Sha256::digest(msg.as_bytes());
     format!("{msg}Checksum: {}\r\n", hex::encode(sum)).into_bytes()
+}
+
+
+// ---------------------------------------------------------------------------
+// coverage-driven extension: alternative verifying load paths, other format variants,
+// checksum-guarded records the first version did not reach (see notes/C07.md)
+
+static SCRATCH: std::sync::OnceLock<std::path::PathBuf> = std::sync::OnceLock::new();
+
+/// A file path private to the calling thread inside the run's scratch directory.
+fn scratch_file(name: &str) -> std::path::PathBuf {
+    let dir = SCRATCH.get().cloned().unwrap_or_else(std::env::temp_dir);
+    let d = dir.join(format!("t-{:?}", std::thread::current().id()).replace(['(', ')'], ""));
+    let _ = std::fs::create_dir_all(&d);
+    d.join(name)
+}
+
+/// BLTE container around an encoding file with uncompressed ('N') chunks, written by the harness:
+/// one chunk without chunk table, or `cuts.len()+1` chunks with a standard chunk table (whose
+/// per-chunk MD5s `parse_blte` does not look at: the page MD5s are what must catch a change).
+/// Returns (container bytes, offset map: encoding offset -> container offset).
+fn blte_wrap_n(enc: &[u8], cuts: &[usize]) -> (Vec<u8>, Vec<(Range<usize>, usize)>) {
+    if cuts.is_empty() {
+        let mut v = b"BLTE\0\0\0\0N".to_vec();
+        v.extend_from_slice(enc);
+        return (v, vec![(0..enc.len(), 9)]);
+    }
+    let mut bounds = vec![0usize];
+    bounds.extend_from_slice(cuts);
+    bounds.push(enc.len());
+    let n = bounds.len() - 1;
+    let header_size = 8 + 4 + 24 * n;
+    let mut v = b"BLTE".to_vec();
+    v.extend_from_slice(&(header_size as u32).to_be_bytes());
+    v.push(0x0f);
+    v.extend_from_slice(&(n as u32).to_be_bytes()[1..]);
+    for w in bounds.windows(2) {
+        let mut chunk = vec![b'N'];
+        chunk.extend_from_slice(&enc[w[0]..w[1]]);
+        v.extend_from_slice(&(chunk.len() as u32).to_be_bytes());
+        v.extend_from_slice(&((w[1] - w[0]) as u32).to_be_bytes());
+        v.extend_from_slice(&md5::compute(&chunk).0);
+    }
+    let mut map = Vec::new();
+    for w in bounds.windows(2) {
+        v.push(b'N');
+        map.push((w[0]..w[1], v.len() - w[0]));
+        v.extend_from_slice(&enc[w[0]..w[1]]);
+    }
+    (v, map)
+}
+
+/// The same protected region as `encoding_artifact`, reached through `EncodingFile::parse_blte`
+/// (the load path of a CDN download: BLTE container -> decompress -> parse).
+fn encoding_blte_artifact(instance: String, enc: &[u8], chunks: usize) -> Result<Artifact, String> {
+    let plain = encoding_artifact(instance.clone(), enc.to_vec())?;
+    // chunk boundaries inside the first ckey page and inside the last ekey page
+    let cuts: Vec<usize> = match chunks {
+        1 => Vec::new(),
+        _ => {
+            let first = plain.parts.iter().find(|(n, _)| n.starts_with("ckey-page")).map(|(_, r)| r.start + r.len() / 2);
+            let last = plain.parts.iter().rev().find(|(n, _)| n.starts_with("ekey-page")).map(|(_, r)| r.start + r.len() / 3);
+            let mut c: Vec<usize> = first.into_iter().chain(last).collect();
+            c.sort_unstable();
+            c.dedup();
+            c
+        }
+    };
+    let (bytes, map) = blte_wrap_n(enc, &cuts);
+    let tr = |o: usize| -> usize { map.iter().find(|(r, _)| r.contains(&o)).map_or(o, |(_, d)| o + d) };
+    // a part that spans a chunk boundary is split (the chunk's mode byte lies in between)
+    let mut parts: Vec<(&'static str, Range<usize>)> = Vec::new();
+    for (name, r) in &plain.parts {
+        let mut start = r.start;
+        for c in cuts.iter().filter(|c| r.contains(c) && **c > r.start) {
+            parts.push((name, tr(start)..tr(*c - 1) + 1));
+            start = *c;
+        }
+        parts.push((name, tr(start)..tr(r.end - 1) + 1));
+    }
+    let parsed = EncodingFile::parse_blte(&bytes).map_err(|e| format!("{instance}: parse_blte: {e}"))?;
+    let want = encoding_logical(&parsed);
+    Ok(Artifact {
+        kind: "encoding-via-parse_blte",
+        instance: format!("{instance} in a {}-chunk BLTE container", cuts.len() + 1),
+        bytes,
+        parts,
+        check: Box::new(move |d| match EncodingFile::parse_blte(d) {
+            Err(_) => Outcome::Rejected,
+            Ok(f) => {
+                let got = encoding_logical(&f);
+                if got == want { Outcome::AcceptedEqual } else { Outcome::AcceptedAltered { what: first_diff(&want, &got), collision: false } }
+            }
+        }),
+        fixed_record: false,
+        length_protected: false,
+    })
+}
+
+/// `IndexEntry::verify` itself: stored MD5 (16 bytes) followed by the page it covers.
+fn index_entry_verify_artifact(rng: &mut Rng, page_len: usize) -> Artifact {
+    let page = if rng.bool() { rng.bytes(page_len) } else { vec![0u8; page_len] };
+    let mut bytes = md5::compute(&page).0.to_vec();
+    bytes.extend_from_slice(&page);
+    let orig = bytes.clone();
+    let mut parts: Vec<(&'static str, Range<usize>)> = vec![("stored-md5", 0..16)];
+    if page_len > 0 {
+        parts.push(("page", 16..16 + page_len));
+    }
+    Artifact {
+        kind: "encoding-index-entry.verify",
+        instance: format!("page of {page_len} bytes"),
+        bytes,
+        parts,
+        check: Box::new(move |d| {
+            if d.len() < 16 {
+                return Outcome::Rejected;
+            }
+            let mut sum = [0u8; 16];
+            sum.copy_from_slice(&d[..16]);
+            let e = cascette_formats::encoding::IndexEntry::new(rng_free_first_key(d), sum);
+            // the accessors of the entry must not disturb the check
+            let _ = (e.first_content_key(), e.first_encoding_key());
+            if !e.verify(&d[16..]) {
+                Outcome::Rejected
+            } else if d == orig.as_slice() {
+                Outcome::AcceptedEqual
+            } else {
+                Outcome::AcceptedAltered { what: format!("verify() == true for {} page bytes that differ from the original {}", d.len() - 16, orig.len() - 16), collision: false }
+            }
+        }),
+        fixed_record: false,
+        length_protected: true,
+    }
+}
+
+fn rng_free_first_key(d: &[u8]) -> [u8; 16] {
+    let mut k = [0u8; 16];
+    let n = d.len().saturating_sub(16).min(16);
+    k[..n].copy_from_slice(&d[16..16 + n]);
+    k
+}
+
+fn archive_footer_parts(n: usize) -> Vec<(&'static str, Range<usize>)> {
+    let f = n - 28;
+    vec![
+        ("footer-field-version", f + 8..f + 9),
+        ("footer-field-reserved", f + 9..f + 11),
+        ("footer-field-page_size_kb", f + 11..f + 12),
+        ("footer-field-offset_bytes", f + 12..f + 13),
+        ("footer-field-size_bytes", f + 13..f + 14),
+        ("footer-field-ekey_length", f + 14..f + 15),
+        ("footer-field-footer_hash_bytes", f + 15..f + 16),
+        ("footer-field-element_count", f + 16..f + 20),
+        ("footer-stored-hash", f + 20..f + 28),
+    ]
+}
+
+/// Archive index in another layout than the builder default (16-byte keys, 4-byte offsets,
+/// footer version 1): truncated keys, 5- and 6-byte offsets, footer version 0.
+fn build_archive_index_variant(rng: &mut Rng, entries: usize, key_size: u8, offset_bytes: u8, version: u8) -> Result<Vec<u8>, String> {
+    let mut b = ArchiveIndexBuilder::with_config(key_size, offset_bytes, 4);
+    let mut off = 0u64;
+    for _ in 0..entries {
+        let size = rng.range(1, 1 << 20) as u32;
+        b.add_entry(rng.bytes(key_size as usize), size, off);
+        off += u64::from(size);
+    }
+    let mut out = Cursor::new(Vec::new());
+    b.build(&mut out).map_err(|e| e.to_string())?;
+    let mut bytes = out.into_inner();
+    if version != 1 {
+        // footer version 0 is valid as well: set it and recompute the footer hash the way the
+        // format documentation gives it (MD5 of the 12 field bytes zero-padded to 20, first 8 bytes)
+        let f = bytes.len() - 28;
+        bytes[f + 8] = version;
+        let mut buf = [0u8; 20];
+        buf[..12].copy_from_slice(&bytes[f + 8..f + 20]);
+        let h = md5::compute(buf).0;
+        bytes[f + 20..f + 28].copy_from_slice(&h[..8]);
+    }
+    Ok(bytes)
+}
+
+/// The footer check reached through `ChunkedArchiveIndex::open` (lazy loader: footer and TOC are
+/// read at open, chunks on demand). Logical content = what lookups of the original keys return.
+fn archive_chunked_artifact(instance: String, bytes: Vec<u8>) -> Result<Artifact, String> {
+    use cascette_formats::archive::ChunkedArchiveIndex;
+    let parsed = ArchiveIndex::parse(Cursor::new(&bytes)).map_err(|e| format!("{instance}: {e}"))?;
+    if parsed.footer.ekey_length != 16 || parsed.footer.offset_bytes != 4 {
+        return Err(format!("{instance}: the chunk loader only reads the 16/4/4 layout"));
+    }
+    let n = bytes.len();
+    let mut keys: Vec<Vec<u8>> = Vec::new();
+    let step = (parsed.entries.len() / 48).max(1);
+    for (i, e) in parsed.entries.iter().enumerate() {
+        if i % step == 0 || i + 1 == parsed.entries.len() {
+            keys.push(e.encoding_key.clone());
+        }
+    }
+    keys.push(vec![0u8; 16]);
+    keys.push(vec![0xff; 16]);
+    let lookups = move |path: &std::path::Path| -> Option<String> {
+        let mut ix = ChunkedArchiveIndex::open(path).ok()?;
+        let mut out = String::new();
+        for k in &keys {
+            match ix.find_entry(k) {
+                Ok(Some(e)) => out.push_str(&format!("{}:{}@{};", hex_short(k, 6), e.size, e.offset)),
+                Ok(None) => out.push_str(&format!("{}:-;", hex_short(k, 6))),
+                // a chunk that cannot be read after a successful open: the index is not served as good
+                Err(_) => return None,
+            }
+        }
+        Some(out)
+    };
+    let p0 = scratch_file("chunked-orig.index");
+    std::fs::write(&p0, &bytes).map_err(|e| e.to_string())?;
+    let want = lookups(&p0).ok_or_else(|| format!("{instance}: ChunkedArchiveIndex::open refuses the unmodified index"))?;
+    let _ = std::fs::remove_file(&p0);
+    Ok(Artifact {
+        kind: "archive-index-via-chunked-open",
+        instance,
+        bytes,
+        parts: archive_footer_parts(n),
+        check: Box::new(move |d| {
+            let p = scratch_file("chunked.index");
+            if std::fs::write(&p, d).is_err() {
+                return Outcome::Rejected;
+            }
+            match lookups(&p) {
+                None => Outcome::Rejected,
+                Some(got) if got == want => Outcome::AcceptedEqual,
+                Some(got) => Outcome::AcceptedAltered { what: first_diff(&want, &got), collision: false },
+            }
+        }),
+        fixed_record: false,
+        length_protected: true,
+    })
+}
+
+/// Archive group (6-byte composite offsets) through `ArchiveGroup::parse`; the same bytes must get
+/// the same verdict from `ArchiveIndex::parse` and from `CascFormat::parse`.
+fn archive_group_artifact(rng: &mut Rng, entries: usize) -> Result<Artifact, String> {
+    use cascette_formats::CascFormat;
+    use cascette_formats::archive::{ArchiveGroup, ArchiveGroupBuilder, ArchiveGroupEntry};
+    let mut b = ArchiveGroupBuilder::new();
+    for _ in 0..entries {
+        b.add_entry(ArchiveGroupEntry::new(rng.bytes(16), rng.below(4000) as u16, rng.next_u32(), rng.range(1, 1 << 20) as u32));
+    }
+    let mut out = Cursor::new(Vec::new());
+    b.build(&mut out).map_err(|e| e.to_string())?;
+    let bytes = out.into_inner();
+    let logical = |g: &ArchiveGroup| format!("{:?}|{:?}", g.footer, g.entries.iter().map(|e| (&e.encoding_key, e.archive_index, e.offset, e.size)).collect::<Vec<_>>());
+    let parsed = ArchiveGroup::parse(&mut Cursor::new(&bytes)).map_err(|e| format!("archive group {entries}: {e}"))?;
+    let want = logical(&parsed);
+    let n = bytes.len();
+    Ok(Artifact {
+        kind: "archive-group",
+        instance: format!("builder {entries} entries"),
+        bytes,
+        parts: archive_footer_parts(n),
+        check: Box::new(move |d| {
+            if d.len() < 13 {
+                return match ArchiveGroup::parse(&mut Cursor::new(d)) {
+                    Err(_) => Outcome::Rejected,
+                    Ok(g) => Outcome::AcceptedAltered { what: format!("{} entries from {} bytes", g.entries.len(), d.len()), collision: false },
+                };
+            }
+            let r = ArchiveGroup::parse(&mut Cursor::new(d));
+            let plain = ArchiveIndex::parse(Cursor::new(d));
+            let by_trait = <ArchiveIndex as CascFormat>::parse(d);
+            // alternative entry points over the same bytes: the footer verdict must be the same
+            // (ArchiveGroup::parse may refuse more: it also wants 6-byte offsets)
+            if plain.is_ok() != by_trait.is_ok() {
+                return Outcome::AcceptedAltered { what: format!("ArchiveIndex::parse ok={} but CascFormat::parse ok={}", plain.is_ok(), by_trait.is_ok()), collision: false };
+            }
+            if r.is_ok() && plain.is_err() {
+                return Outcome::AcceptedAltered { what: "ArchiveGroup::parse accepted what ArchiveIndex::parse rejects".into(), collision: false };
+            }
+            match r {
+                Err(_) => match plain {
+                    // not a group any more (offset_bytes changed) but accepted as a plain index
+                    Ok(i) => Outcome::AcceptedAltered { what: format!("rejected as group, accepted as plain index with footer {:?}", i.footer), collision: false },
+                    Err(_) => Outcome::Rejected,
+                },
+                Ok(g) => {
+                    let got = logical(&g);
+                    if got == want { Outcome::AcceptedEqual } else { Outcome::AcceptedAltered { what: first_diff(&want, &got), collision: false } }
+                }
+            }
+        }),
+        fixed_record: false,
+        length_protected: true,
+    })
+}
+
+/// The LRU checkpoint through the manager's own load path (`LruManager::load_from_disk`).
+fn lru_manager_artifact(rng: &mut Rng, n: usize) -> Artifact {
+    use cascette_client_storage::lru::LruManager;
+    let base = lru_artifact(rng, n);
+    let generation = 0x0123_4567_89ab_cdefu64;
+    let cap = n.max(1) as u32;
+    let load = move |d: &[u8]| -> Option<String> {
+        let dir = scratch_file("lru").with_extension("d");
+        let _ = std::fs::create_dir_all(&dir);
+        let path = lru_file::lru_file_path(&dir, generation);
+        std::fs::write(&path, d).ok()?;
+        let mut m = LruManager::new(cap, dir);
+        // one runtime per mutation thread (its blocking pool serves the manager's tokio::fs::read)
+        thread_local! {
+            static RT: Option<tokio::runtime::Runtime> = tokio::runtime::Builder::new_current_thread().max_blocking_threads(1).build().ok();
+        }
+        RT.with(|rt| rt.as_ref().and_then(|rt| rt.block_on(m.load_from_disk(generation)).ok()))?;
+        let mut keys: Vec<[u8; 9]> = Vec::new();
+        m.for_each_entry(|k| keys.push(*k));
+        Some(format!("{}|{:?}", m.len(), keys))
+    };
+    let want = load(&base.bytes).unwrap_or_else(|| "<unmodified checkpoint not loadable>".into());
+    Artifact {
+        kind: "lru-file-via-load_from_disk",
+        instance: base.instance.clone(),
+        bytes: base.bytes.clone(),
+        parts: base.parts.clone(),
+        check: Box::new(move |d| match load(d) {
+            None => Outcome::Rejected,
+            Some(got) if got == want => Outcome::AcceptedEqual,
+            Some(got) => Outcome::AcceptedAltered { what: first_diff(&want, &got), collision: false },
+        }),
+        fixed_record: false,
+        length_protected: true,
+    }
+}
+
+/// KMT V8 residency entry (40 bytes): guard = hashlittle(bytes[4..37], 0) | 0x80000000 over
+/// ekey(16) span(16) update_type(1) (key_state.rs: "JenkinsHashLittle2(&entry[4], 0x21, 0)").
+fn residency_entry_artifact(rng: &mut Rng) -> Artifact {
+    use cascette_client_storage::kmt::key_state::{ResidencyEntry, ResidencySpan, ResidencyUpdateType};
+    let ty = *rng.pick(&[ResidencyUpdateType::Set, ResidencyUpdateType::Create, ResidencyUpdateType::Delete, ResidencyUpdateType::MarkResident, ResidencyUpdateType::MarkNonResident]);
+    let span = if rng.bool() { ResidencySpan::full() } else { ResidencySpan::range(rng.next_u32() as i32, rng.next_u32() as i32) };
+    let e = ResidencyEntry::new(rng.array::<16>(), span, ty);
+    let logical = |e: &ResidencyEntry| format!("{:?}|{:?}|{:?}", e.ekey, e.span, e.update_type);
+    let want = logical(&e);
+    let mut bytes = e.to_bytes().to_vec();
+    bytes.extend_from_slice(&ResidencyEntry::new(rng.array::<16>(), ResidencySpan::full(), ResidencyUpdateType::Set).to_bytes());
+    Artifact {
+        kind: "residency-entry",
+        instance: format!("update type {ty:?}"),
+        bytes,
+        parts: vec![("stored-hash-guard", 0..4), ("ekey", 4..20), ("span", 20..36), ("update-type", 36..37)],
+        check: Box::new(move |d| {
+            if d.len() < 40 {
+                return Outcome::Rejected;
+            }
+            let mut raw = [0u8; 40];
+            raw.copy_from_slice(&d[..40]);
+            let p = ResidencyEntry::from_bytes(&raw);
+            if !p.is_valid() || !p.validate_hash_guard() {
+                return Outcome::Rejected;
+            }
+            let got = logical(&p);
+            if got == want {
+                return Outcome::AcceptedEqual;
+            }
+            let stored = u32::from_le_bytes([raw[0], raw[1], raw[2], raw[3]]);
+            let reference = lookup3::hashlittle(&raw[4..37], 0) | 0x8000_0000;
+            Outcome::AcceptedAltered { what: format!("{want} -> {got}"), collision: stored == reference }
+        }),
+        fixed_record: true,
+        length_protected: false,
+    }
+}
+
+/// V1 reply through `mime_parser::parse_v1_mime_response` (the structure-returning entry point:
+/// data, signature, checksum) instead of the BPSV-converting wrapper.
+fn mime_response_artifact(instance: String, text: Vec<u8>) -> Result<Artifact, String> {
+    use cascette_protocol::mime_parser::parse_v1_mime_response;
+    let base = mime_artifact(instance, text)?;
+    let logical = |r: &cascette_protocol::mime_parser::V1MimeResponse| format!("{:?}|{:?}", r.data, r.signature);
+    let want = logical(&parse_v1_mime_response(&base.bytes).map_err(|e| e.to_string())?);
+    Ok(Artifact {
+        kind: "v1-mime-via-parse_v1_mime_response",
+        instance: base.instance.clone(),
+        bytes: base.bytes.clone(),
+        parts: base.parts.clone(),
+        check: Box::new(move |d| match parse_v1_mime_response(d) {
+            Err(_) => Outcome::Rejected,
+            Ok(r) => {
+                let got = logical(&r);
+                if got == want { Outcome::AcceptedEqual } else { Outcome::AcceptedAltered { what: first_diff(&want, &got), collision: false } }
+            }
+        }),
+        fixed_record: false,
+        length_protected: false,
+    })
+}
+
+/// The second V1 parser of the protocol crate (`v1_mime::parse_v1_mime_response`): its epilogue
+/// carries an MD5 of every byte before the `Checksum: ` line (module doc of v1_mime/mod.rs).
+fn v1_mime_md5_artifact(rng: &mut Rng) -> Result<Artifact, String> {
+    use cascette_protocol::v1_mime::parse_v1_mime_response;
+    let sha = handmade_mime(rng);
+    let pos = sha.windows(10).rposition(|w| w == b"Checksum: ").ok_or("no checksum line")?;
+    let mut text = sha[..pos].to_vec();
+    let sum = md5::compute(&text).0;
+    text.extend_from_slice(format!("Checksum: {}\r\n", hex::encode(sum)).as_bytes());
+    let logical = |d: &str| -> String {
+        match cascette_formats::bpsv::parse(d) {
+            Ok(doc) => bpsv_logical(&doc),
+            Err(_) => format!("raw:{d}"),
+        }
+    };
+    let first = parse_v1_mime_response(&text, None).map_err(|e| format!("v1_mime module: {e}"))?;
+    let want = logical(&first.data);
+    let body_start = text.windows(4).rposition(|w| w == b"\r\n\r\n").map_or(0, |p| p + 4).min(pos);
+    let closing = text[..pos].windows(4).rposition(|w| w == b"\r\n--").unwrap_or(pos);
+    let parts: Vec<(&'static str, Range<usize>)> = if body_start > 0 && body_start < closing {
+        vec![("mime-headers", 0..body_start), ("bpsv-body", body_start..closing), ("closing-boundary", closing..pos)]
+    } else {
+        vec![("message", 0..pos)]
+    };
+    Ok(Artifact {
+        kind: "v1-mime-md5-epilogue(v1_mime-module)",
+        instance: "harness-built reply with MD5 epilogue".into(),
+        bytes: text,
+        parts,
+        check: Box::new(move |d| match parse_v1_mime_response(d, None) {
+            Err(_) => Outcome::Rejected,
+            Ok(r) => {
+                let got = logical(&r.data);
+                if got == want { Outcome::AcceptedEqual } else { Outcome::AcceptedAltered { what: first_diff(&want, &got), collision: false } }
+            }
+        }),
+        fixed_record: false,
+        length_protected: false,
+    })
+}
+
+/// BLTE container with a chunk table: every chunk is stored together with its MD5
+/// (`ChunkInfo::checksum`), checked by `ChunkData::verify_checksum`. Neither `BlteFile::parse` nor
+/// `decompress` calls it, so the verifying load is parse + verify_checksum of every chunk.
+fn blte_chunks_artifact(rng: &mut Rng, extended: bool) -> Result<Artifact, String> {
+    use cascette_formats::blte::BlteFile;
+    use cascette_formats::CascFormat;
+    let (n1, n2) = (rng.urange(1, 40), rng.urange(40, 200));
+    let payloads: Vec<Vec<u8>> = vec![rng.bytes(n1), rng.bytes(n2), vec![7u8; 33]];
+    let info = if extended { 40 } else { 24 };
+    let header_size = 8 + 4 + info * payloads.len();
+    let mut v = b"BLTE".to_vec();
+    v.extend_from_slice(&(header_size as u32).to_be_bytes());
+    v.push(if extended { 0x10 } else { 0x0f });
+    v.extend_from_slice(&(payloads.len() as u32).to_be_bytes()[1..]);
+    let mut parts: Vec<(&'static str, Range<usize>)> = Vec::new();
+    for p in &payloads {
+        let mut chunk = vec![b'N'];
+        chunk.extend_from_slice(p);
+        v.extend_from_slice(&(chunk.len() as u32).to_be_bytes());
+        v.extend_from_slice(&(p.len() as u32).to_be_bytes());
+        parts.push(("chunk-table-stored-md5", v.len()..v.len() + 16));
+        v.extend_from_slice(&md5::compute(&chunk).0);
+        if extended {
+            v.extend_from_slice(&md5::compute(p).0);
+        }
+    }
+    for (i, p) in payloads.iter().enumerate() {
+        let name = if i + 1 == payloads.len() { "chunk-last" } else if i == 0 { "chunk-first" } else { "chunk-middle" };
+        parts.push((name, v.len()..v.len() + 1 + p.len()));
+        v.push(b'N');
+        v.extend_from_slice(p);
+    }
+    let want: Vec<u8> = payloads.concat();
+    let check = move |d: &[u8]| -> Outcome {
+        let Ok(f) = <BlteFile as CascFormat>::parse(d) else { return Outcome::Rejected };
+        let Some(ext) = f.header.extended.as_ref() else { return Outcome::Rejected };
+        if ext.chunk_infos.len() != f.chunks.len() {
+            return Outcome::Rejected;
+        }
+        for (c, i) in f.chunks.iter().zip(&ext.chunk_infos) {
+            if !c.verify_checksum(&i.checksum) {
+                return Outcome::Rejected;
+            }
+        }
+        match f.decompress() {
+            Err(_) => Outcome::Rejected,
+            Ok(got) if got == want => Outcome::AcceptedEqual,
+            Ok(got) => Outcome::AcceptedAltered { what: format!("all chunk checksums verify, content {} -> {}", hex_short(&want, 24), hex_short(&got, 24)), collision: false },
+        }
+    };
+    if !matches!(check(&v), Outcome::AcceptedEqual) {
+        return Err("harness-built BLTE container does not verify unmodified".into());
+    }
+    Ok(Artifact { kind: "blte-chunk-table", instance: format!("3 N chunks, {} chunk table", if extended { "extended" } else { "standard" }), bytes: v, parts, check: Box::new(check), fixed_record: false, length_protected: false })
+}
+
+// ---------------------------------------------------------------------------
+// the validators behind the cache APIs, called directly
+
+/// For content `data` with key = MD5(data): every validator must say valid for (key, data) and
+/// invalid / Err for (key, data') with data' != data.
+async fn direct_validators(ctx: &Ctx, rounds: usize) {
+    use cascette_cache::validation::NgdpBytes;
+    let md5h = Md5ValidationHooks::new();
+    let ngdp = NgdpValidationHooks::new();
+    let ngdp_j = NgdpValidationHooks::new().with_jenkins96_validation();
+    let mut rng = ctx.rng(9100);
+    for round in 0..rounds {
+        let data = match round % 5 {
+            0 => Vec::new(),
+            1 => vec![rng.next_u32() as u8],
+            2 => {
+                let n = rng.urange(2, 64);
+                rng.bytes(n)
+            }
+            3 => {
+                let n = rng.urange(64, 5000);
+                rng.bytes(n)
+            }
+            _ => vec![0u8; rng.urange(1, 300)],
+        };
+        let on = rng.urange(1, 64);
+        let other = rng.bytes(on);
+        let key = ContentKey::from_data(&data);
+        let mut cases: Vec<(Fault, Vec<u8>)> = vec![(Fault::None, data.clone())];
+        for f in FAULTS {
+            for _ in 0..3 {
+                let bad = corrupt(&mut rng, f, &data, &other);
+                if bad != data {
+                    cases.push((f, bad));
+                }
+            }
+        }
+        // batch validator: element-wise the same verdicts as the single one
+        let items: Vec<(ContentKey, &[u8])> = cases.iter().map(|(_, d)| (key, d.as_slice())).collect();
+        let batch = ngdp.batch_validate_content(&items).await;
+        for (idx, (fault, d)) in cases.iter().enumerate() {
+            let good = *fault == Fault::None;
+            ctx.eval_nontrivial(mix64(fnv64(b"validators"), mix64(round as u64, idx as u64)));
+            let b = Bytes::from(d.clone());
+            let mut verdicts: Vec<(&'static str, Option<bool>)> = Vec::new();
+            verdicts.push(("Md5ValidationHooks.validate_content", md5h.validate_content(&key, d).await.ok().map(|r| r.is_valid)));
+            verdicts.push(("Md5ValidationHooks.validate_on_get", md5h.validate_on_get(&key, d).await.ok().map(|r| r.is_valid)));
+            verdicts.push(("NgdpValidationHooks.validate_content", ngdp.validate_content(&key, d).await.ok().map(|r| r.is_valid)));
+            verdicts.push(("NgdpValidationHooks.validate_on_get", ngdp.validate_on_get(&key, d).await.ok().map(|r| r.is_valid)));
+            verdicts.push(("NgdpValidationHooks(jenkins96).validate_content", ngdp_j.validate_content(&key, d).await.ok().map(|r| r.is_valid)));
+            verdicts.push(("NgdpValidationHooks.batch_validate_content", batch.as_ref().ok().and_then(|v| v.get(idx)).map(|r| r.is_valid)));
+            verdicts.push(("NgdpBytes.new_validated", Some(NgdpBytes::new_validated(b.clone(), key).is_ok())));
+            verdicts.push(("NgdpBytes.from_pool_buffer_validated", Some(NgdpBytes::from_pool_buffer_validated(bytes::BytesMut::from(d.as_slice()), key).is_ok())));
+            let lazy = NgdpBytes::new_with_key(b.clone(), key);
+            let needs = lazy.needs_validation();
+            verdicts.push(("NgdpBytes.validate_if_needed", lazy.validate_if_needed().ok()));
+            // the cached verdict of a second call and the flag must agree with the first
+            verdicts.push(("NgdpBytes.validate_if_needed(second-call)", lazy.validate_if_needed().ok()));
+            verdicts.push(("NgdpBytes.is_validated-after-validate_if_needed", Some(lazy.is_validated())));
+            let pooled = NgdpBytes::from_pool_buffer(bytes::BytesMut::from(d.as_slice()), Some(key));
+            verdicts.push(("NgdpBytes.from_pool_buffer+validate_if_needed", pooled.validate_if_needed().ok()));
+            let hooked = NgdpBytes::new_with_key(b.clone(), key);
+            let r = hooked.validate_with_hooks(&md5h).await;
+            verdicts.push(("NgdpBytes.validate_with_hooks(Md5ValidationHooks)", Some(matches!(&r, Ok(v) if v.is_valid))));
+            verdicts.push(("NgdpBytes.is_validated-after-validate_with_hooks", Some(hooked.is_validated())));
+            let hooked2 = NgdpBytes::new_with_key(b.clone(), key);
+            let r2 = hooked2.validate_with_hooks(&ngdp).await;
+            verdicts.push(("NgdpBytes.validate_with_hooks(NgdpValidationHooks)", Some(matches!(&r2, Ok(v) if v.is_valid))));
+            if !needs {
+                ctx.violation("C07|NgdpBytes.needs_validation|unvalidated-bytes-with-key|reports-no-validation-needed", "NgdpBytes::new_with_key(..).needs_validation() is false before any validation", json!({"len": d.len()}));
+            }
+            // Jenkins96 validator: expected hash of the ORIGINAL data
+            let j = cascette_crypto::Jenkins96::hash(&data).hash64;
+            let (pc, pb) = lookup3::hashlittle2(d, 0, 0);
+            let reference_collision = ((u64::from(pc) << 32) | u64::from(pb)) == j;
+            let jv = ngdp.validate_jenkins96(j, d).ok().map(|r| r.is_valid);
+            for (name, v) in verdicts.into_iter().chain([("NgdpValidationHooks.validate_jenkins96", jv)]) {
+                let collision = name.ends_with("validate_jenkins96") && reference_collision;
+                match (good, v) {
+                    (true, Some(true)) => ctx.obs(&format!("validator.{name}.valid-content.accepted"), 1),
+                    (false, Some(false)) | (false, None) => ctx.obs(&format!("validator.{name}.{}.rejected", fault.name()), 1),
+                    (true, _) => {
+                        // refusing good content is not a C07 matter (nothing altered is served); recorded
+                        ctx.obs(&format!("validator.{name}.valid-content.REFUSED"), 1);
+                    }
+                    (false, Some(true)) if collision => ctx.obs(&format!("validator.{name}.genuine-hash-collision"), 1),
+                    (false, Some(true)) => {
+                        ctx.obs(&format!("validator.{name}.{}.ACCEPTED", fault.name()), 1);
+                        ctx.violation(
+                            &format!("C07|{name}|{}|content-not-matching-the-key-reported-valid", fault.name()),
+                            "a validator reported content valid although it differs from the content the key / expected hash was computed from",
+                            json!({"validator": name, "fault": fault.name(), "key": hex::encode(key.as_bytes()), "original": hex_short(&data, 64), "original_len": data.len(), "offered": hex_short(d, 64), "offered_len": d.len()}),
+                        );
+                    }
+                }
+            }
+            // outside the statement (no stored checksum is compared): the encoding-key "validator"
+            let ek = EncodingKey::from_bytes(rng.array::<16>());
+            if let Ok(r) = ngdp.validate_encoding_key(&ek, d) {
+                ctx.obs(&format!("outside-statement.NgdpValidationHooks.validate_encoding_key.says-{}-for-unrelated-key", if r.is_valid { "valid" } else { "invalid" }), 1);
+            }
+        }
+    }
+    ctx.obs("validator.rounds", rounds as u64);
+}
+
+/// ContentAddressedCache on top of a MultiLayerCacheImpl (memory + disk layers) and with the
+/// other hook configurations: a third backend shape for put_validated / fault / get_validated.
+async fn cac_over_multilayer(ctx: &Ctx, histories: usize, stream: u64) {
+    for h in 0..histories {
+        let mut rng = ctx.rng(stream + h as u64);
+        let Ok(tmp) = tempfile::tempdir() else {
+            ctx.inconclusive("tempdir");
+            return;
+        };
+        let mem = MemoryCacheConfig::new().with_max_entries(1000).with_max_memory(64 << 20);
+        let dsk = DiskCacheConfig::new(tmp.path()).with_subdirectories(h % 2 == 0, 2);
+        let inner = match MultiLayerCacheImpl::<BlteBlockKey>::new(MultiLayerCacheConfig::new().add_memory_layer(mem).add_disk_layer(dsk)) {
+            Ok(c) => Arc::new(c),
+            Err(e) => {
+                ctx.inconclusive(&format!("MultiLayerCacheImpl::new: {e}"));
+                return;
+            }
+        };
+        let hooks = Arc::new(match h % 3 {
+            0 => NgdpValidationHooks::new(),
+            1 => NgdpValidationHooks::new().with_jenkins96_validation(),
+            _ => NgdpValidationHooks::with_tact_key(cascette_crypto::TactKey::new(0x1122_3344_5566_7788, [9u8; 16])),
+        });
+        let cache = cascette_cache::ngdp::ContentAddressedCache::new(inner.clone(), hooks);
+        let bname = "multi-layer-backend";
+        let data = contents(&mut rng);
+        let keys: Vec<ContentKey> = data.iter().map(|d| ContentKey::from_data(d)).collect();
+        let mut last_fault = vec![Fault::None; data.len()];
+        let mut log: Vec<Value> = Vec::new();
+        for _ in 0..rng.urange(10, 50) {
+            let k = rng.usize_below(data.len());
+            let key = keys[k];
+            let bkey = BlteBlockKey::new_raw(key, 0);
+            match rng.below(10) {
+                0..=2 => {
+                    let Some(r) = with_watchdog(ctx, "put_validated", cache.put_validated(key, Bytes::from(data[k].clone()))).await else { return };
+                    ctx.obs(&format!("cache.ContentAddressedCache.{bname}.put_validated.{}", if r.is_ok() { "ok" } else { "err" }), 1);
+                    if r.is_ok() {
+                        last_fault[k] = Fault::None;
+                    }
+                    log.push(json!({"op":"put_validated","key":k,"ok":r.is_ok()}));
+                }
+                3 => {
+                    let other = (k + 1 + rng.usize_below(data.len() - 1)) % data.len();
+                    let Some(r) = with_watchdog(ctx, "put_validated(mismatch)", cache.put_validated(key, Bytes::from(data[other].clone()))).await else { return };
+                    ctx.obs(&format!("cache.ContentAddressedCache.{bname}.put_validated-mismatching-content.{}", if r.is_ok() { "ACCEPTED" } else { "refused" }), 1);
+                    if r.is_ok() {
+                        last_fault[k] = Fault::SwapOtherValid;
+                    }
+                    log.push(json!({"op":"put_validated(mismatch)","key":k,"content_of":other,"ok":r.is_ok()}));
+                }
+                4..=6 => {
+                    let fault = *rng.pick(&FAULTS);
+                    let other = (k + 1 + rng.usize_below(data.len() - 1)) % data.len();
+                    let bad = corrupt(&mut rng, fault, &data[k], &data[other]);
+                    if md5_ok(&key, &bad) {
+                        continue;
+                    }
+                    let layer = rng.usize_below(2);
+                    let Some(r) = with_watchdog(ctx, "put_to_layer", inner.put_to_layer(bkey, Bytes::from(bad), layer)).await else { return };
+                    if r.is_ok() {
+                        last_fault[k] = fault;
+                        ctx.obs(&format!("cache.ContentAddressedCache.{bname}.fault.{}", fault.name()), 1);
+                    }
+                    log.push(json!({"op":"fault","key":k,"fault":fault.name(),"layer":layer,"applied":r.is_ok()}));
+                }
+                _ => {
+                    let Some(r) = with_watchdog(ctx, "get_validated", cache.get_validated(key)).await else { return };
+                    ctx.eval_nontrivial(mix64(fnv64(b"cac-ml"), mix64(stream + h as u64, log.len() as u64)));
+                    let out = match &r {
+                        Ok(Some(b)) if md5_ok(&key, b) => "hit-bytes-hash-to-key",
+                        Ok(Some(_)) => "HIT-BYTES-DO-NOT-HASH-TO-KEY",
+                        Ok(None) => "miss",
+                        Err(_) => "error(invalid)",
+                    };
+                    ctx.obs(&format!("cache.ContentAddressedCache.{bname}.get_validated.after-{}.{out}", last_fault[k].name()), 1);
+                    log.push(json!({"op":"get_validated","key":k,"outcome":out}));
+                    if let Ok(Some(b)) = &r {
+                        if !md5_ok(&key, b) {
+                            ctx.violation(
+                                &format!("C07|ContentAddressedCache.get_validated|{}|returned-bytes-md5-differs-from-key|{bname}", last_fault[k].name()),
+                                "get_validated returned bytes whose MD5 is not the requested content key",
+                                json!({"backend": bname, "history": log, "key": hex::encode(key.as_bytes()), "returned": hex_short(b, 64), "returned_len": b.len()}),
+                            );
+                        }
+                    }
+                }
+            }
+        }
+        let _ = cache.metrics();
+        ctx.obs("cache.ContentAddressedCache.multi-layer-backend.histories", 1);
+    }
+}
+
+
+/// A V1 reply with a second MIME part carrying a signature (base64 text or raw 8-bit bytes), as the
+/// public service sends it: the checksum covers both parts, `parse_v1_mime_response` returns both.
+fn handmade_mime_signed(rng: &mut Rng, base64_signature: bool) -> Vec<u8> {
+    let unsigned = handmade_mime(rng);
+    let pos = unsigned.windows(10).rposition(|w| w == b"Checksum: ").unwrap_or(unsigned.len());
+    let msg = &unsigned[..pos];
+    // re-open the message before its closing boundary and add the signature part
+    let closing = msg.windows(4).rposition(|w| w == b"\r\n--").unwrap_or(msg.len());
+    let boundary_line = &msg[closing + 2..msg.len() - 4]; // "--<boundary>" of the closing "--<boundary>--\r\n"
+    let sig: Vec<u8> = rng.bytes(96);
+    let mut out = msg[..closing].to_vec();
+    out.extend_from_slice(b"\r\n");
+    out.extend_from_slice(boundary_line);
+    if base64_signature {
+        out.extend_from_slice(b"\r\nContent-Type: application/octet-stream\r\nContent-Disposition: signature\r\n\r\n");
+        out.extend_from_slice(base64_std(&sig).as_bytes());
+    } else {
+        out.extend_from_slice(b"\r\nContent-Type: application/octet-stream\r\nContent-Disposition: signature\r\nContent-Transfer-Encoding: binary\r\n\r\n");
+        out.extend(sig.iter().map(|b| if *b == b'\r' || *b == b'\n' || *b == b'-' { b'x' } else { *b }));
+    }
+    out.extend_from_slice(b"\r\n");
+    out.extend_from_slice(boundary_line);
+    out.extend_from_slice(b"--\r\n");
+    let sum = Sha256::digest(&out);
+    out.extend_from_slice(format!("Checksum: {}\r\n", hex::encode(sum)).as_bytes());
+    out
+}
+
+/// RFC 4648 base64 with padding (the harness crate has no base64 dependency).
+fn base64_std(data: &[u8]) -> String {
+    const T: &[u8; 64] = b"ABCDEFGHIJKLMNOPQRSTUVWXYZabcdefghijklmnopqrstuvwxyz0123456789+/";
+    let mut out = String::new();
+    for c in data.chunks(3) {
+        let b = [c[0], *c.get(1).unwrap_or(&0), *c.get(2).unwrap_or(&0)];
+        let n = (u32::from(b[0]) << 16) | (u32::from(b[1]) << 8) | u32::from(b[2]);
+        out.push(T[(n >> 18) as usize & 63] as char);
+        out.push(T[(n >> 12) as usize & 63] as char);
+        out.push(if c.len() > 1 { T[(n >> 6) as usize & 63] as char } else { '=' });
+        out.push(if c.len() > 2 { T[n as usize & 63] as char } else { '=' });
+    }
+    out
+}
+
+/// Outside the statement (the bytes of the checksum line are not "protected bytes"): what happens
+/// when the stored checksum itself stops being a 64-digit hex string.
+fn observe_mime_checksum_line(ctx: &Ctx, text: &[u8]) {
+    let Some(pos) = text.windows(10).rposition(|w| w == b"Checksum: ") else { return };
+    let Ok(orig) = parse_v1_mime_to_bpsv(text) else { return };
+    let want = bpsv_logical(&orig);
+    let mut buf = text.to_vec();
+    for i in 0..64usize {
+        let p = pos + 10 + i;
+        if p >= buf.len() {
+            break;
+        }
+        let o = buf[p];
+        for (what, v) in [("made-non-hex", b'g'), ("other-hex-digit", if o == b'0' { b'1' } else { b'0' })] {
+            buf[p] = v;
+            let out = match parse_v1_mime_to_bpsv(&buf) {
+                Err(_) => "rejected",
+                Ok(d) if bpsv_logical(&d) == want => "accepted-unverified-content-equal",
+                Ok(_) => "accepted-content-altered",
+            };
+            ctx.obs(&format!("outside-statement.v1-mime.stored-checksum-digit-{what}.{out}"), 1);
+        }
+        buf[p] = o;
+    }
+}
+
+/// `IndexFooter::is_valid` / `ArchiveIndex::validate` on the parsed structure: every single-bit
+/// change of a footer field (or of the stored hash) in memory must be reported.
+fn footer_struct_checks(ctx: &Ctx, bytes: &[u8], instance: &str) {
+    let Ok(ix) = ArchiveIndex::parse(Cursor::new(bytes)) else {
+        ctx.inconclusive(&format!("footer struct check: {instance} does not parse"));
+        return;
+    };
+    if !ix.footer.is_valid() || ix.validate().is_err() {
+        ctx.inconclusive(&format!("footer struct check: the unmodified footer of {instance} is reported invalid"));
+        return;
+    }
+    let mut n = 0u64;
+    let mut judge = |field: &'static str, f: cascette_formats::archive::IndexFooter| {
+        n += 1;
+        ctx.eval_nontrivial(mix64(fnv64(b"footer-struct"), mix64(fnv64(instance.as_bytes()), mix64(fnv64(field.as_bytes()), n))));
+        let mut changed = ix.clone();
+        changed.footer = f.clone();
+        let still_valid = f.is_valid();
+        let validate_ok = changed.validate().is_ok();
+        ctx.obs(&format!("footer-struct.{field}.{}", if still_valid { "STILL-VALID" } else { "reported-invalid" }), 1);
+        if still_valid {
+            ctx.violation(&format!("C07|IndexFooter.is_valid|bitflip|altered-footer-reported-valid|{field}"), "a footer whose field was changed in memory still passes is_valid()", json!({"instance": instance, "field": field, "original": format!("{:?}", ix.footer), "changed": format!("{f:?}")}));
+        }
+        if validate_ok {
+            ctx.violation(&format!("C07|ArchiveIndex.validate|bitflip|altered-footer-reported-valid|{field}"), "an index whose footer field was changed in memory still passes validate()", json!({"instance": instance, "field": field, "original": format!("{:?}", ix.footer), "changed": format!("{f:?}")}));
+        }
+    };
+    for bit in 0..8 {
+        let mut f = ix.footer.clone();
+        f.version ^= 1 << bit;
+        judge("footer-field-version", f);
+        for i in 0..2 {
+            let mut f = ix.footer.clone();
+            f.reserved[i] ^= 1 << bit;
+            judge("footer-field-reserved", f);
+        }
+        let mut f = ix.footer.clone();
+        f.page_size_kb ^= 1 << bit;
+        judge("footer-field-page_size_kb", f);
+        let mut f = ix.footer.clone();
+        f.offset_bytes ^= 1 << bit;
+        judge("footer-field-offset_bytes", f);
+        let mut f = ix.footer.clone();
+        f.size_bytes ^= 1 << bit;
+        judge("footer-field-size_bytes", f);
+        let mut f = ix.footer.clone();
+        f.ekey_length ^= 1 << bit;
+        judge("footer-field-ekey_length", f);
+        for i in 0..ix.footer.footer_hash.len() {
+            let mut f = ix.footer.clone();
+            f.footer_hash[i] ^= 1 << bit;
+            judge("footer-stored-hash", f);
+        }
+    }
+    for bit in 0..32 {
+        let mut f = ix.footer.clone();
+        f.element_count ^= 1 << bit;
+        judge("footer-field-element_count", f);
+    }
+    // footer_hash_bytes tells how many bytes of the stored hash are compared: lowering it (8 -> 0..7)
+    // weakens the comparison, so is_valid() alone may still say true; validate() also runs
+    // validate_format (hash bytes must be 8) and has to refuse. Recorded, judged through validate().
+    for v in 0..8u8 {
+        let mut f = ix.footer.clone();
+        f.footer_hash_bytes = v;
+        let mut changed = ix.clone();
+        changed.footer = f.clone();
+        ctx.obs(&format!("footer-struct.footer-field-footer_hash_bytes-lowered.is_valid-{}", f.is_valid()), 1);
+        if changed.validate().is_ok() {
+            ctx.violation("C07|ArchiveIndex.validate|byte-subst|altered-footer-reported-valid|footer-field-footer_hash_bytes", "an index whose footer_hash_bytes was lowered in memory still passes validate()", json!({"instance": instance, "value": v}));
+        }
+    }
 }
 
 // ---------------------------------------------------------------------------
@@ -1045,8 +1896,15 @@ async fn multilayer_histories(ctx: &Ctx, histories: usize, stream: u64) {
             let bkey = BlteBlockKey::new_raw(key, 0);
             match rng.below(10) {
                 0..=2 => {
-                    let Some(r) = with_watchdog(ctx, "put_with_validation", cache.put_with_validation(bkey, key, Bytes::from(data[k].clone()))).await else { return };
-                    ctx.obs(&format!("cache.MultiLayerCacheImpl.{lname}.put_with_validation.{}", if r.is_ok() { "ok" } else { "err" }), 1);
+                    let with_ttl = rng.chance(1, 3);
+                    let r = if with_ttl {
+                        let Some(r) = with_watchdog(ctx, "put_with_validation_and_ttl", cache.put_with_validation_and_ttl(bkey, key, Bytes::from(data[k].clone()), Duration::from_secs(3600))).await else { return };
+                        r
+                    } else {
+                        let Some(r) = with_watchdog(ctx, "put_with_validation", cache.put_with_validation(bkey, key, Bytes::from(data[k].clone()))).await else { return };
+                        r
+                    };
+                    ctx.obs(&format!("cache.MultiLayerCacheImpl.{lname}.{}.{}", if with_ttl { "put_with_validation_and_ttl" } else { "put_with_validation" }, if r.is_ok() { "ok" } else { "err" }), 1);
                     if r.is_ok() {
                         last_fault[k] = Fault::None;
                     }
@@ -1054,8 +1912,15 @@ async fn multilayer_histories(ctx: &Ctx, histories: usize, stream: u64) {
                 }
                 3 => {
                     let other = (k + 1 + rng.usize_below(data.len() - 1)) % data.len();
-                    let Some(r) = with_watchdog(ctx, "put_with_validation(mismatch)", cache.put_with_validation(bkey, key, Bytes::from(data[other].clone()))).await else { return };
-                    ctx.obs(&format!("cache.MultiLayerCacheImpl.{lname}.put_with_validation-mismatching-content.{}", if r.is_ok() { "ACCEPTED" } else { "refused" }), 1);
+                    let with_ttl = rng.chance(1, 2);
+                    let r = if with_ttl {
+                        let Some(r) = with_watchdog(ctx, "put_with_validation_and_ttl(mismatch)", cache.put_with_validation_and_ttl(bkey, key, Bytes::from(data[other].clone()), Duration::from_secs(3600))).await else { return };
+                        r
+                    } else {
+                        let Some(r) = with_watchdog(ctx, "put_with_validation(mismatch)", cache.put_with_validation(bkey, key, Bytes::from(data[other].clone()))).await else { return };
+                        r
+                    };
+                    ctx.obs(&format!("cache.MultiLayerCacheImpl.{lname}.{}-mismatching-content.{}", if with_ttl { "put_with_validation_and_ttl" } else { "put_with_validation" }, if r.is_ok() { "ACCEPTED" } else { "refused" }), 1);
                     if r.is_ok() {
                         last_fault[k] = Fault::SwapOtherValid;
                     }
@@ -1242,6 +2107,19 @@ fn main() {
     }
 
     // ---- artifacts -----------------------------------------------------------------------------
+    let scratch = {
+        let shm = std::path::Path::new("/dev/shm");
+        let made = if shm.is_dir() { tempfile::Builder::new().prefix("c07-").tempdir_in(shm) } else { tempfile::Builder::new().prefix("c07-").tempdir() };
+        made.or_else(|_| tempfile::Builder::new().prefix("c07-").tempdir())
+    };
+    let scratch = match scratch {
+        Ok(t) => t,
+        Err(e) => {
+            ctx.inconclusive(&format!("no scratch directory: {e}"));
+            ctx.finish();
+        }
+    };
+    let _ = SCRATCH.set(scratch.path().to_path_buf());
     let mut artifacts: Vec<Artifact> = Vec::new();
     let mut rng = ctx.rng(1);
     // encoding: small builder files (exhaustive), larger builder file, CDN fixtures
@@ -1311,6 +2189,70 @@ fn main() {
             Err(e) => ctx.inconclusive(&format!("handmade v1 mime artifact: {e}")),
         }
     }
+    // ---- coverage-driven extension: further load paths / variants / guarded records ------------------
+    {
+        let mut rng = ctx.rng(2);
+        let mut extra: Vec<Artifact> = Vec::new();
+        let mut add = |r: Result<Artifact, String>, what: &str| match r {
+            Ok(a) => extra.push(a),
+            Err(e) => ctx.inconclusive(&format!("{what}: {e}")),
+        };
+        // encoding through parse_blte: builder files in 1-chunk and multi-chunk containers, one fixture
+        for (kb, nc, ne, trailing, chunks) in [(1u16, 6usize, 8usize, false, 1usize), (1, 30, 60, true, 3), (2, 90, 30, false, 3)] {
+            match build_encoding(&mut rng, kb, nc, ne, trailing) {
+                Ok(b) => add(encoding_blte_artifact(format!("builder page={kb}KiB ckeys={nc} ekeys={ne} trailing={trailing}"), &b, chunks), "encoding via parse_blte"),
+                Err(e) => ctx.inconclusive(&format!("encoding builder (blte): {e}")),
+            }
+        }
+        if let Some((name, b)) = fixtures("/repo/crates/cascette-formats/test_fixtures/encoding", "bin").into_iter().min_by_key(|(_, b)| b.len()) {
+            add(encoding_blte_artifact(format!("fixture {name}"), &b, 3), "encoding fixture via parse_blte");
+        }
+        for len in [0usize, 1, 64, 1024, 4096] {
+            artifacts.push(index_entry_verify_artifact(&mut rng, len));
+        }
+        // archive index: other layouts and footer version 0
+        for (n, ks, ob, ver) in [(5usize, 9u8, 4u8, 1u8), (300, 9, 4, 1), (40, 16, 5, 1), (200, 16, 6, 1), (7, 16, 4, 0), (171, 16, 4, 0), (12, 9, 5, 0)] {
+            add(build_archive_index_variant(&mut rng, n, ks, ob, ver).and_then(|b| archive_artifact(format!("builder {n} entries, {ks}-byte keys, {ob}-byte offsets, footer version {ver}"), b)), "archive index variant");
+        }
+        // the footer check through the lazy chunk loader and through the archive-group parser
+        for n in [1usize, 170, 171, 600] {
+            add(build_archive_index(&mut rng, n).and_then(|b| archive_chunked_artifact(format!("builder {n} entries"), b)), "archive index via ChunkedArchiveIndex::open");
+        }
+        if let Some((name, b)) = fixtures("/repo/crates/cascette-formats/test_fixtures/archive", "index").into_iter().min_by_key(|(_, b)| b.len()) {
+            add(archive_chunked_artifact(format!("fixture {name}"), b), "archive fixture via ChunkedArchiveIndex::open");
+        }
+        for n in [1usize, 157, 158, 400] {
+            add(archive_group_artifact(&mut rng, n), "archive group");
+        }
+        // LRU checkpoint through the manager
+        for n in [1usize, 3, 12] {
+            artifacts.push(lru_manager_artifact(&mut rng, n));
+        }
+        for _ in 0..ctx.pick(100, 800) {
+            artifacts.push(residency_entry_artifact(&mut rng));
+        }
+        // V1 replies through the structure-returning entry point and through the v1_mime module
+        match server_mime_replies(&mut rng) {
+            Ok(v) => {
+                for (name, b) in v.into_iter().take(2) {
+                    add(mime_response_artifact(name, b), "v1 mime via parse_v1_mime_response");
+                }
+            }
+            Err(e) => ctx.inconclusive(&format!("server-generated V1 replies (2): {e}")),
+        }
+        add(mime_response_artifact("harness-built reply (Content-Disposition: version)".into(), handmade_mime(&mut rng)), "handmade v1 mime via parse_v1_mime_response");
+        // replies with a signature part (base64 text / raw bytes): both loaders
+        for b64 in [true, false] {
+            let name = format!("harness-built reply with {} signature part", if b64 { "base64" } else { "8-bit" });
+            let m = handmade_mime_signed(&mut rng, b64);
+            add(mime_artifact(name.clone(), m.clone()), "signed v1 mime");
+            add(mime_response_artifact(name, m), "signed v1 mime via parse_v1_mime_response");
+        }
+        add(v1_mime_md5_artifact(&mut rng), "v1_mime module reply");
+        add(blte_chunks_artifact(&mut rng, false), "blte chunk table");
+        add(blte_chunks_artifact(&mut rng, true), "blte extended chunk table");
+        artifacts.append(&mut extra);
+    }
     for a in &artifacts {
         if ctx.want_sample() && matches!(a.kind, "encoding" | "archive-index" | "v1-mime" | "lru-file") {
             ctx.sample(json!({"kind":"artifact","artifact":a.kind,"instance":a.instance,"len":a.bytes.len(),"protected_bytes":a.region_len(),"parts":a.parts.iter().map(|(n,r)| format!("{n}@{}..{}", r.start, r.end)).take(12).collect::<Vec<_>>() }));
@@ -1346,7 +2288,7 @@ fn main() {
     if all_small_exhaustive.load(std::sync::atomic::Ordering::SeqCst) && small_regions > 0 {
         // scope of the flag: see `exhaustive_scope` below and the rule text
         ctx.set_exhaustive(true);
-        ctx.set_extra("exhaustive_scope", json!("all single-bit flips and all four byte substitutions at every protected byte of every artifact whose protected region is <= 4 KiB (update entries, local headers, archive-index footers, LRU files <= 4 KiB, 1-KiB-page encoding file, V1 replies); positions in larger regions and the artifacts themselves are sampled"));
+        ctx.set_extra("exhaustive_scope", json!("all single-bit flips and all four byte substitutions at every protected byte of every artifact whose protected region is <= 4 KiB (update entries, local headers, residency entries, archive-index / archive-group footers through every loader, LRU files <= 4 KiB through both loaders, 1-KiB-page encoding file plain and BLTE-wrapped, IndexEntry::verify pages <= 4 KiB, BLTE chunk tables, V1 replies through every loader); positions in larger regions and the artifacts themselves are sampled"));
     }
 
     // ---- observations outside the statement ---------------------------------------------------
@@ -1356,6 +2298,13 @@ fn main() {
             observe_archive_unenforced(&ctx, b, &mut rng, ctx.pick(50, 400));
         }
         observe_update_section_loader(&ctx, &mut rng, ctx.pick(100, 2000));
+        observe_mime_checksum_line(&ctx, &handmade_mime(&mut rng));
+        for (n, ks, ob) in [(5usize, 16u8, 4u8), (200, 9, 5), (40, 16, 6)] {
+            match build_archive_index_variant(&mut rng, n, ks, ob, 1) {
+                Ok(b) => footer_struct_checks(&ctx, &b, &format!("builder {n} entries, {ks}-byte keys, {ob}-byte offsets")),
+                Err(e) => ctx.inconclusive(&format!("footer struct check artifact: {e}")),
+            }
+        }
     }
 
     // ---- caches ------------------------------------------------------------------------------
@@ -1372,6 +2321,8 @@ fn main() {
                     });
                 }
                 futures::future::join_all(futs).await;
+                cac_over_multilayer(ctx, per * 2, 90_000).await;
+                direct_validators(ctx, ctx.pick(40, 400)).await;
                 oversized_entry(ctx).await;
             });
             rt.shutdown_timeout(Duration::from_secs(2));
@@ -1380,7 +2331,23 @@ fn main() {
     }
 
     // minimum evidence: every verifying loader must have rejected something and every cache must have served a valid hit
-    for kind in ["encoding", "archive-index", "lru-file", "update-entry", "local-header", "v1-mime"] {
+    for kind in [
+        "encoding",
+        "archive-index",
+        "lru-file",
+        "update-entry",
+        "local-header",
+        "v1-mime",
+        "encoding-via-parse_blte",
+        "encoding-index-entry.verify",
+        "archive-index-via-chunked-open",
+        "archive-group",
+        "lru-file-via-load_from_disk",
+        "residency-entry",
+        "v1-mime-via-parse_v1_mime_response",
+        "v1-mime-md5-epilogue(v1_mime-module)",
+        "blte-chunk-table",
+    ] {
         if ctx.get_obs(&format!("{kind}.bitflip.rejected")) == 0 {
             ctx.inconclusive(&format!("no rejected bit flip observed for {kind}"));
         }
@@ -1389,6 +2356,20 @@ fn main() {
     if faulted_reads == 0 {
         ctx.inconclusive("no backing-store fault was applied to ContentAddressedCache");
     }
+    if ctx.get_obs("footer-struct.footer-field-element_count.reported-invalid") == 0 {
+        ctx.inconclusive("the in-memory footer check (IndexFooter::is_valid / ArchiveIndex::validate) did not run");
+    }
+    if ctx.get_obs("validator.rounds") == 0 || ctx.get_obs("validator.NgdpBytes.new_validated.corrupt-bitflip.rejected") == 0 {
+        ctx.inconclusive("the direct validator sub-check did not run or rejected no bit flip");
+    }
+    if ctx.get_obs("cache.ContentAddressedCache.multi-layer-backend.histories") == 0 {
+        ctx.inconclusive("no ContentAddressedCache history over the multi-layer backend ran");
+    }
+    let ttl_puts: u64 = ["memory-layer", "disk-layer", "memory+disk-layers"].iter().map(|l| ctx.get_obs(&format!("cache.MultiLayerCacheImpl.{l}.put_with_validation_and_ttl.ok"))).sum();
+    if ttl_puts == 0 {
+        ctx.inconclusive("put_with_validation_and_ttl never stored an entry");
+    }
+    drop(scratch);
     let panics = PANICS.lock().unwrap_or_else(std::sync::PoisonError::into_inner).clone();
     let mut by_site: BTreeMap<String, u64> = BTreeMap::new();
     for p in panics {
